@@ -489,6 +489,24 @@ class Eval:
             if init == T.seq(()):
                 return m
             return ("concat", init, m)
+        # d = {}; for ...: d[k] = v   ==   {k: v for ...}   (later keys win in both)
+        if init == ("dict", ()):
+            def peel_upd(t):
+                if t[0] == "upd" and t[1] == lc and not T.contains(t[2], lc) and not T.contains(t[3], lc):
+                    return T.seq((t[2], t[3])), T.TRUE
+                if t[0] == "phi" and not T.contains(t[1], lc):
+                    if t[3] == lc:
+                        r_ = peel_upd(t[2])
+                        if r_:
+                            return r_[0], T.b_and(t[1], r_[1])
+                    if t[2] == lc:
+                        r_ = peel_upd(t[3])
+                        if r_:
+                            return r_[0], T.b_and(T.b_not(t[1]), r_[1])
+                return None
+            r_ = peel_upd(new)
+            if r_:
+                return ("call", "dict", (mk_map(r_[0], bv, it, r_[1]),), ())
         if new[0] in ("union", "concat") and new[1] == lc and not T.contains(new[2], lc):
             return (new[0], init, ("flatmap", new[2], bv, it, T.TRUE))
         if new[0] == "phi" and not T.contains(new[1], lc):
@@ -867,6 +885,23 @@ class Eval:
                     self.env[name] = changed[name] = f(changed[name])
                 for e in self.summary.events[n0:]:
                     rewrite_event(e, f)
+        # `for x in (t,)` inside a comprehension is a let-binding: x = t
+        kept = []
+        for i, (bv, it, cond) in enumerate(gens):
+            if it[0] == "seq" and len(it[1]) == 1 and len(gens) > 1:
+                m = {bv: it[1][0]}
+                elt = T.substitute(elt, m)
+                c_here = T.substitute(cond, m)
+                gens[i + 1:] = [(b2, T.substitute(i2, m), T.substitute(c2, m)) for b2, i2, c2 in gens[i + 1:]]
+                if kept:
+                    b0, i0, c0 = kept[-1]
+                    kept[-1] = (b0, i0, T.b_and(c0, c_here))
+                elif c_here != T.TRUE and i + 1 < len(gens):
+                    b2, i2, c2 = gens[i + 1]
+                    gens[i + 1] = (b2, i2, T.b_and(c_here, c2))
+                continue
+            kept.append(gens[i])
+        gens = kept or gens
         out = None
         for bv, it, cond in reversed(gens):
             if out is None:
@@ -1039,8 +1074,11 @@ class Eval:
         sub.env.update(bind)
         sub.guard = list(self.guard)
         sub.try_stack = list(self.try_stack)
-        sub.heap = {}
+        # the callee sees (and updates) the caller's view of the heap: `self.x` read in an extracted method is the value the
+        # caller stored before the call
+        sub.heap = dict(self.heap)
         s = sub.run()
+        self.heap = dict(sub.heap)
         self.summary.loop_init.update(s.loop_init)
         # events of the callee become visible in the caller (they carry the caller's guard prefix)
         for e in s.events:
@@ -1164,6 +1202,18 @@ def _canon_step(bv, it, terms):
         return it[2][0], {}, None
     if is_call(it, "range", 2) and it[2][0] == T.num(0):
         return ("call", "range", (it[2][1],), ()), {}, None
+    # range(a, b) with a constant start is range(b - a) shifted: `for i in range(1, n): f(x[i-1], x[i])` == `for i in range(n-1): f(x[i], x[i+1])`
+    if is_call(it, "range", 2) and it[2][0][0] == "num" and it[2][0][1].denominator == 1:
+        return ("call", "range", (T.sub(it[2][1], it[2][0]),), ()), {bv: T.add(bv, it[2][0])}, None
+    # consecutive pairs: zip(X, X[1:]) / zip(X[:-1], X[1:])
+    if is_call(it, "zip", 2):
+        A, B = it[2]
+        tail = ("slice", T.num(1), T.NONE, T.NONE)
+        head = ("slice", T.NONE, T.num(-1), T.NONE)
+        if B[0] == "idx" and B[2] == tail and (A == B[1] or (A[0] == "idx" and A[2] == head and A[1] == B[1])):
+            X0 = B[1]
+            n1 = T.sub(("call", "len", (X0,), ()), T.num(1))
+            return ("call", "range", (n1,), ()), {P0: T.idx(X0, bv), P1: T.idx(X0, T.add(bv, T.num(1)))}, None
     # ---- iterating a comprehension is iterating its source
     if it[0] == "map":
         e2, b2, it2, c2 = it[1:]
@@ -1324,8 +1374,12 @@ def simplify_call(fname, recv, args, kw):
     if fname == "filter" and len(args) == 2 and args[0][0] == "lambda" and len(args[0][1]) == 1:
         lam = args[0]
         return ("map", lam[1][0], lam[1][0], args[1], lam[2])
-    if fname == "numpy.array" and len(args) >= 1 and args[0][0] == "seq" and not any(x[0] in ("star",) for x in args[0][1]):
+    if fname in ("numpy.array", "numpy.asarray") and len(args) >= 1 and args[0][0] == "seq" and not any(x[0] in ("star",) for x in args[0][1]):
         return T.arr(args[0][1])
+    if fname in ("numpy.array", "numpy.asarray") and len(args) == 1 and not kw and args[0][0] not in ("seq", "dict"):
+        # conversion of an existing sequence / array to an array is the identity on its values (terms do not distinguish the two:
+        # arithmetic on atoms is element-wise already)
+        return args[0]
     if fname in ("numpy.sqrt", "math.sqrt") and len(args) == 1:
         return T.sqrt(args[0])
     if fname in ("numpy.abs", "numpy.absolute", "abs", "math.fabs") and len(args) == 1:
